@@ -1,11 +1,12 @@
 // Driver for C12: the REAL call graph (state.PointerAnalysis.CallGraph), state.ReachableFunctions() and
 // state.ResolveCallee of the repository on generated pointer programs versus
-//   (1) the Lean criteria `cgClosed` / `ptrClosed` on the dumped facts + real result       — V2 (cg_sound, executed_reachable)
-//   (2) the Lean model `Cg.reach` on the dumped edges == real ReachableFunctions, exactly     — M8 (reachable_is_closure)
-//   (3) the Lean model `Cg.resolveCallee` == real ResolveCallee(instr, false), exactly        — M8 (resolveCallee_contains_actual)
-//   (4) ground truth of native runs: every logged call event (call site, entered function) must be a
-//       call-graph edge at that site (possibly through synthetic wrappers), the entered function must be
-//       in ReachableFunctions and among the functions ResolveCallee returns            — concrete search
+//
+//	(1) the Lean criteria `cgClosed` / `ptrClosed` on the dumped facts + real result       — V2 (cg_sound, executed_reachable)
+//	(2) the Lean model `Cg.reach` on the dumped edges == real ReachableFunctions, exactly     — M8 (reachable_is_closure)
+//	(3) the Lean model `Cg.resolveCallee` == real ResolveCallee(instr, false), exactly        — M8 (resolveCallee_contains_actual)
+//	(4) ground truth of native runs: every logged call event (call site, entered function) must be a
+//	    call-graph edge at that site (possibly through synthetic wrappers), the entered function must be
+//	    in ReachableFunctions and among the functions ResolveCallee returns            — concrete search
 package main
 
 import (
@@ -166,7 +167,6 @@ func checkProgram(rep *lib.Report, run *ptrrun.Result, pi int, queries []resolve
 		return
 	}
 	reach := state.ReachableFunctions()
-	cg := state.PointerAnalysis.CallGraph
 	var problems []string // model / criterion level
 	probCase := -1
 
@@ -219,10 +219,69 @@ func checkProgram(rep *lib.Report, run *ptrrun.Result, pi int, queries []resolve
 	rep.Extra["resolve_queries"] = intOf(rep.Extra["resolve_queries"]) + len(queries)
 
 	// (4) ground truth: call events
-	type miss struct {
-		key, what string
-		c         int
+	missed, events, evProblems := checkEvents(rep, run, true)
+	problems = append(problems, evProblems...)
+	rep.Extra["call_events"] = intOf(rep.Extra["call_events"]) + len(events)
+	rep.Extra["native_runs"] = intOf(rep.Extra["native_runs"]) + run.NativeRuns
+	if pi == 0 {
+		for i, e := range events {
+			if i%(len(events)/4+1) == 0 && run.SiteInstr[e[1]] != nil && run.FidFn[e[0]] != nil {
+				rep.Sample(map[string]any{"site": run.SiteInstr[e[1]].String(), "in": run.SiteInstr[e[1]].Parent().String(),
+					"entered": run.FidFn[e[0]].String(), "form": callForm(run.SiteInstr[e[1]])})
+			}
+		}
 	}
+
+	closed := run.PtrClosed && run.CgClosed && len(d.MissingQuery) == 0 && run.BadRecords == 0
+	switch {
+	case len(missed) > 0:
+		m := missed[0]
+		rep.Fail("missed-call:"+m.key, m.what, ptrrun.Replay(run, m.c, fmt.Sprintf("%s\n%d missed call events in this program; criterion failures: %v; model problems: %v\n", m.what, len(missed), run.FailText(4), problems)), false)
+	case !closed:
+		// targeted search: programs concentrated on the call forms whose rule failed
+		if focus := ptrrun.FocusOf(run); len(focus) > 0 {
+			for round := 0; round < 2; round++ {
+				fr := lib.Rand(fmt.Sprintf("c12-focus-%d-%d", pi, round))
+				fp := gen.GenPtrProg(fr, gen.PtrOpts{Cases: 40, Stmts: 8, Funcs: 2, Focus: focus})
+				frun := ptrrun.RunWith("C12", fmt.Sprintf("focus%d_%d", pi, round), fp, rep, "oracle_c12", nil)
+				if frun == nil {
+					continue
+				}
+				rep.Extra["focused_programs"] = intOf(rep.Extra["focused_programs"]) + 1
+				if fm, _, _ := checkEvents(rep, frun, false); len(fm) > 0 {
+					m := fm[0]
+					rep.Fail("missed-call:"+m.key, m.what, ptrrun.Replay(frun, m.c, fmt.Sprintf("%s\nfound by the targeted search (focus %v) after the closure criteria failed on a generated program: %s\n", m.what, focus, strings.Join(run.FailText(4), " | "))), false)
+					return
+				}
+			}
+		}
+		what := fmt.Sprintf("the real call graph / points-to result does not satisfy the closure criteria (cg=%v ptr=%v missing-queries=%d bad-records=%d): %s; every logged call event was an edge",
+			run.CgClosed, run.PtrClosed, len(d.MissingQuery), run.BadRecords, strings.Join(run.FailText(6), " | "))
+		c := -1
+		if len(run.FailCases) > 0 {
+			c = run.FailCases[0]
+		}
+		rep.Fail(fmt.Sprintf("criterion:%d", pi), what, ptrrun.Replay(run, c, what), true)
+	case len(problems) > 0:
+		what := "model of CallGraphReachable / ResolveCallee no longer matches the code (theorems reachable_is_closure / resolveCallee_contains_actual do not describe it): " + strings.Join(head(problems, 4), " | ") + "; every logged call event was still resolved"
+		rep.Fail(fmt.Sprintf("model:%d", pi), what, ptrrun.Replay(run, probCase, what), true)
+	}
+	if os.Getenv("VERIF_C11_KEEP") == "" {
+		run.Cleanup()
+	}
+}
+
+type miss struct {
+	key, what string
+	c         int
+}
+
+// checkEvents compares every logged call event with the real call graph, reachable set and ResolveCallee.
+func checkEvents(rep *lib.Report, run *ptrrun.Result, count bool) ([]miss, [][2]int, []string) {
+	state := run.State
+	reach := state.ReachableFunctions()
+	cg := state.PointerAnalysis.CallGraph
+	var problems []string
 	var missed []miss
 	events := make([][2]int, 0, len(run.Events))
 	for e := range run.Events {
@@ -260,12 +319,14 @@ func checkProgram(rep *lib.Report, run *ptrrun.Result, pi int, queries []resolve
 		}
 		key := fmt.Sprintf("%s%s callees=%d", form, via, len(direct))
 		nontrivial := form != "static"
-		if nontrivial {
-			rep.Case(key + " " + instr.String())
-		} else {
-			rep.Case("")
+		if count {
+			if nontrivial {
+				rep.Case(key + " " + instr.String())
+			} else {
+				rep.Case("")
+			}
+			rep.Count("event:" + form + via)
 		}
-		rep.Count("event:" + form + via)
 		what := ""
 		switch {
 		case !reach[caller]:
@@ -288,37 +349,7 @@ func checkProgram(rep *lib.Report, run *ptrrun.Result, pi int, queries []resolve
 			missed = append(missed, miss{fmt.Sprintf("%s->%s", instr.String(), callee.String()), what, ptrrun.CaseOf(caller)})
 		}
 	}
-	rep.Extra["call_events"] = intOf(rep.Extra["call_events"]) + len(events)
-	rep.Extra["native_runs"] = intOf(rep.Extra["native_runs"]) + run.NativeRuns
-	if pi == 0 {
-		for i, e := range events {
-			if i%(len(events)/4+1) == 0 && run.SiteInstr[e[1]] != nil && run.FidFn[e[0]] != nil {
-				rep.Sample(map[string]any{"site": run.SiteInstr[e[1]].String(), "in": run.SiteInstr[e[1]].Parent().String(),
-					"entered": run.FidFn[e[0]].String(), "form": callForm(run.SiteInstr[e[1]])})
-			}
-		}
-	}
-
-	closed := run.PtrClosed && run.CgClosed && len(d.MissingQuery) == 0 && run.BadRecords == 0
-	switch {
-	case len(missed) > 0:
-		m := missed[0]
-		rep.Fail("missed-call:"+m.key, m.what, ptrrun.Replay(run, m.c, fmt.Sprintf("%s\n%d missed call events in this program; criterion failures: %v; model problems: %v\n", m.what, len(missed), run.FailText(4), problems)), false)
-	case !closed:
-		what := fmt.Sprintf("the real call graph / points-to result does not satisfy the closure criteria (cg=%v ptr=%v missing-queries=%d bad-records=%d): %s; every logged call event was an edge",
-			run.CgClosed, run.PtrClosed, len(d.MissingQuery), run.BadRecords, strings.Join(run.FailText(6), " | "))
-		c := -1
-		if len(run.FailCases) > 0 {
-			c = run.FailCases[0]
-		}
-		rep.Fail(fmt.Sprintf("criterion:%d", pi), what, ptrrun.Replay(run, c, what), true)
-	case len(problems) > 0:
-		what := "model of CallGraphReachable / ResolveCallee no longer matches the code (theorems reachable_is_closure / resolveCallee_contains_actual do not describe it): " + strings.Join(head(problems, 4), " | ") + "; every logged call event was still resolved"
-		rep.Fail(fmt.Sprintf("model:%d", pi), what, ptrrun.Replay(run, probCase, what), true)
-	}
-	if os.Getenv("VERIF_C11_KEEP") == "" {
-		run.Cleanup()
-	}
+	return missed, events, problems
 }
 
 func head(xs []string, n int) []string {
